@@ -14,8 +14,14 @@ def jobs(tier):
             cuts={'sharedbook.c':['_book_maptype1_quantvals']},unwind=max(en*dm+qv+3,10),unwindset=[('ov_ilog',None,34)],object_bits=10,
             witnesses=['sequence book','plain book'],functions=['_book_unquantize','_float32_unpack'],models=['contract: lookup1_values given (P-quantvals)'],
             bounds='maptype %d, %d entries x dim %d, lattice size %d, %s; fixed distinct multiplicands, symbolic sequence/sparse flags'%(mt,en,dm,qv,'sparse' if sp else 'dense'),weight=2))
-    J+=other('C02',tier,lambda j:j.name.startswith('K-synth') or j.name=='P-quantvals')
+    bv=[(0,2,4,[]),(1,2,5,[]),(2,2,5,[]),(3,3,4,['-DCHN=2','-DOFF=2'])] if q else [(0,2,4,[]),(1,2,5,[]),(2,2,5,[]),(3,3,4,['-DCHN=2','-DOFF=2']),(0,3,7,[]),(2,1,3,[]),(1,3,8,[]),(3,2,6,['-DCHN=3','-DOFF=0']),(0,1,5,[]),(3,1,4,['-DCHN=2','-DOFF=0']),(1,1,4,[]),(2,3,8,[])]
+    for var,dim,n,extra in bv:
+        J.append(Job('K-bookvec-v%d-d%d-n%d'%(var,dim,n),'C01/k_bookvec.c',defs=['-DVAR=%d'%var,'-DDIM=%d'%dim,'-DN=%d'%n]+extra,cuts={'codebook.c':['decode_packed_entry_number']},unwind=n*2+6,
+            witnesses=['book without used entries','all vectors decoded','end of packet inside the vector'],models=['decode_packed_entry_number cut: arbitrary entry sequence / end of packet'],
+            functions=[['vorbis_book_decodevs_add','vorbis_book_decodev_add','vorbis_book_decodev_set','vorbis_book_decodevv_add'][var]],
+            bounds='book dimension %d, %d scalars%s, 3 used entries or none; adding decoders on concrete distinct tags, decodev_set on symbolic values'%(dim,n,' over 2-3 channels' if var==3 else ''),weight=1))
+    J+=other('C02',tier,lambda j:j.name.startswith('K-synth') or j.name=='P-quantvals' or j.name.startswith('K-floor0'))
     J+=blk(tier,lambda j:j.name.startswith('blockin-step'))[:2 if q else 99]
     return J
-CLAIM={'text':'Differential (translation-validation style) bounded checks of the decoder integer/table kernels against references transcribed from the Vorbis I specification: ilog, float32_unpack, lookup1_values, render_point, VQ lookup-table construction (types 1/2, sequence, sparse), the audio packet prologue (mode, window flags), and the per-block sample count / overlap placement of the accumulator.',
- 'note':'Each pair (kernel, reference) is one solver equivalence query over all inputs in the stated bounds. NOT covered: Huffman codeword assignment/decode, floor-1 curve rendering (render_line) and unwrap, floor 0 (LSP curve), residue decode order, inverse coupling, IMDCT/window values - i.e. sample VALUES are outside; only the listed kernels and the sample COUNT are decided. Multi-submap/mode combinations are not unrolled.'}
+CLAIM={'text':'Differential (translation-validation style) bounded checks of the decoder integer/table kernels against references transcribed from the Vorbis I specification: ilog, float32_unpack, lookup1_values, render_point, VQ lookup-table construction (types 1/2, sequence, sparse), the audio packet prologue (mode, window flags), placement of VQ vectors by the four vector decoders (residue 0/1/2 layouts, floor 0), floor-0 coefficient unwrap and amplitude scale (spec 6.2.2), and the per-block sample count / overlap placement of the accumulator.',
+ 'note':'Each pair (kernel, reference) is one solver equivalence query over all inputs in the stated bounds. NOT covered: Huffman codeword assignment/decode, floor-1 curve rendering (render_line) and unwrap, floor 0 LSP curve (vorbis_lsp_to_curve: float), residue partition order, inverse coupling, IMDCT/window values - i.e. sample VALUES are outside; only the listed kernels and the sample COUNT are decided. Multi-submap/mode combinations are not unrolled.'}
